@@ -50,8 +50,9 @@ Definition enc_spec_state (d : dstate) : list N :=
   N.of_nat (length (d_dict d)) :: flat_map (fun kv => enc_q (fst kv) ++ enc_s (snd kv)) (d_dict d)
   ++ N.of_nat (length (d_views d)) :: flat_map (fun w => enc_out (view_value d w)) (d_views d).
 
+(* 30-bit djb2-style checksum (small constant first in the product, mask instead of mod: cheap in vm_compute) *)
 Definition cks (l : list N) : N :=
-  fold_left (fun h x => ((h * 1000003 + x + 1) mod 2305843009213693951)%N) l 7%N.
+  fold_left (fun h x => N.land (33 * h + x + 1) 1073741823)%N l 7%N.
 
 Fixpoint model_obs_run (y : sys) (l : list op) : list (list N) :=
   match l with
